@@ -117,7 +117,7 @@ def write (cfg : Cfg) : Ty → Val → Nat → Except Err Bytes
       | .nullTerm => writeN cfg e (vs.snoc (e.default cfg)) pos      -- _write_0: [*array, default]
       | .fixed n =>
         -- `if not cls.dynamic and cls.num_entries != len(data)`: dynamic = the array's size is None
-        if (e.size cfg).isSome ∧ vs.length ≠ n then .error .arraySize else writeN cfg e vs pos
+        if vs.length ≠ n then .error .arraySize else writeN cfg e vs pos   -- `isinstance(cls.num_entries, int) and num_entries != len(data)`
       | _ => writeN cfg e vs pos
     | _, _ => .error .typeErr
   | .struct al fs, v, pos =>
